@@ -34,9 +34,21 @@ def main():
                 served.setdefault(p, set()).add(u.name)
     checks = []
     not_applicable = []
+    kf = json.load(open(os.path.join(VERIF, "known_findings.json")))
+    hist_units = ("H.join_context_histories", "H.join_barrier_histories", "H.late_start_histories", "H.open_histories", "H.hunt_witnesses")
     for p in props:
         if p in served and p in claimed:
-            c = claimed[p]
+            c = dict(claimed[p])
+            open_ids = sorted(x["id"] for x in kf if x.get("status") == "open" and p in x["properties"])
+            fixed_ids = sorted(x["id"] for x in kf if x.get("status", "").startswith("fixed") and p in x["properties"])
+            extra = []
+            if any(h in served[p] for h in hist_units):
+                extra.append("Whole-history clauses are not proved: they are sampled by native history witnesses (units H.*, bounded, concrete histories through the public API under the provider protocol P1-P5 of DESIGN 3.4).")
+            if open_ids:
+                extra.append("Open known findings for this property (genuine defects recorded, not repaired; KNOWN-FINDING lines, excuse predicates in findings/excuses.py): %s." % ", ".join(open_ids))
+            if fixed_ids:
+                extra.append("Defects repaired in /repo by fix: commits and guarded by obligations of this check: %s." % ", ".join(fixed_ids))
+            c["note"] = (c["note"] + " " + " ".join(extra)).strip()
             lvl = "proof"
             evp = os.path.join(VERIF, "evidence", "%s.json" % p)
             if os.path.exists(evp):
